@@ -299,6 +299,34 @@ pub fn run(prop: &str, tier: &str, replay: Option<&str>) -> i32 {
         rep.add(sec);
     }
     {
+        // value LENGTHS through import: every length 0..=140 and around 256, 1000, 65535 of one text-valued field at a time
+        // (the DER length of the value, and of every wrapper around it, changes form at 128 / 256 / 65536)
+        let mut lens: Vec<usize> = (0..=140).collect();
+        lens.extend([250, 251, 252, 253, 254, 255, 256, 257, 258, 259, 260, 1000, 65530, 65535, 65536, 65540]);
+        let fields = ["common name", "organization (printable)", "dns name", "e-mail name", "uri name", "otherName value", "permitted dns subtree", "excluded directoryName value", "custom attribute value (ia5)"];
+        let cases: Vec<(usize, usize)> = (0..fields.len()).flat_map(|f| lens.iter().map(move |n| (f, *n))).collect();
+        let sec = Section::new("sweep/value lengths", &format!("{} lengths (0..=140, 250..=260, 1000, around 65536) of one text value at a time in {} fields: generated, imported, re-issued, imported again", lens.len(), fields.len()));
+        run::sweep_cases(&sec, &cases, &|c| format!("{} of {} characters", fields[c.0], c.1), &|c| {
+            let text: String = (0..c.1).map(|i| (b'a' + (i % 26) as u8) as char).collect();
+            let mut st = CertState::default();
+            st.is_ca = IsCaSpec::Unconstrained;
+            st.dn = DnSpec::cn("length sweep");
+            match c.0 {
+                0 => st.dn = DnSpec::cn(&text),
+                1 => st.dn = DnSpec(vec![(DnTypeSpec::O, StrKind::Printable, text.clone()), (DnTypeSpec::Cn, StrKind::Utf8, "c".into())]),
+                2 => st.sans = vec![SanSpec::Dns(text.clone()), SanSpec::Dns("after.example".into())],
+                3 => st.sans = vec![SanSpec::Email(text.clone())],
+                4 => st.sans = vec![SanSpec::Uri(text.clone())],
+                5 => st.sans = vec![SanSpec::Other(vec![1, 3, 6, 1, 4, 1, 55555, 5], text.clone()), SanSpec::Dns("after.example".into())],
+                6 => st.nc = Some(NcSpec { permitted: vec![SubtreeSpec::Dns(text.clone())], excluded: vec![] }),
+                7 => st.nc = Some(NcSpec { permitted: vec![], excluded: vec![SubtreeSpec::Dir(DnSpec(vec![(DnTypeSpec::O, StrKind::Utf8, text.clone())]))] }),
+                _ => st.dn = DnSpec(vec![(DnTypeSpec::Custom(vec![0, 9, 2342, 19200300, 100, 1, 25]), StrKind::Ia5, text.clone()), (DnTypeSpec::Cn, StrKind::Utf8, "c".into())]),
+            }
+            judge(&known, &st, &ctx)
+        });
+        rep.add(sec);
+    }
+    {
         // object identifiers as attribute type, otherName type and directoryName constraint at once
         let oids = crate::corpus::first_octet_oids();
         let sec = Section::new("sweep/object identifiers", &format!("{} object identifiers (every first-octet value; second arcs of joint-iso-itu-t up to 300 and at the length boundaries; later arcs at the base-128 boundaries) as a subject attribute type, an otherName type and inside a directoryName name constraint: generated, imported, re-issued, imported again", oids.len()));
